@@ -43,6 +43,7 @@ CONSTANTS G,          \* unit grid denominator
           Seeds,      \* explicit seeds explored
           GridVals,   \* unit grid indices the opaque sampler may return
           Injects,    \* subset of BOOLEAN: may the sampler raise by itself
+          UnitMode,   \* "all": every matrix over GridVals; "const": all cells equal (large counts)
           MaxCalls    \* length of the call histories
 
 VARIABLES dflt,   \* dflt[i]: Seeder.default_seed of library instance i
@@ -59,7 +60,7 @@ Abs(a) == IF a < 0 THEN -a ELSE a
 RECURSIVE Pow(_, _)
 Pow(b, e) == IF e = 0 THEN 1 ELSE b * Pow(b, e - 1)
 \* integer d-th root by search: the largest L with L^d <= n
-IRoot(n, d) == CHOOSE L \in 1..n : Pow(L, d) <= n /\ Pow(L + 1, d) > n
+IRoot(n, d) == IF n < 1 THEN 0 ELSE CHOOSE L \in 1..n : Pow(L, d) <= n /\ Pow(L + 1, d) > n
 
 ----------------------------------------------------------------------------
 (* Design spaces (S = 8): asymmetric dyadic bounds, mixed float / integer.  *)
@@ -91,7 +92,8 @@ QFams == {"exact", "exact2", "diag", "fullfact", "axial", "factorial", "composit
           "morris", "custom"}
 
 MinN(f) == IF f \in {"diag", "exact2"} THEN 2 ELSE 1     \* pydantic: ge=2
-SettingsValid(f, n) == IF f \in NFams THEN n >= MinN(f) ELSE n = 0
+\* custom: CustomDOE_Settings refuses an empty `samples`
+SettingsValid(f, n, p) == IF f \in NFams THEN n >= MinN(f) ELSE (n = 0 /\ (f = "custom" => p >= 1))
 
 Levels(f, n, d, p) ==
   CASE f = "fullfact"  -> IRoot(n, d)                                \* base_full_factorial_doe.py
@@ -108,6 +110,10 @@ Accepts(f, n, d, p) ==
     [] f = "bb" -> d >= 3          \* pyDOE3: "Number of variables must be at least 3"
     [] f = "cc" -> d >= 2
     [] OTHER    -> TRUE
+
+\* execute() refuses before touching the design space: invalid settings (pydantic), or a design space
+\* smaller than the algorithm's documented minimum_dimension (PYDOE_BBDESIGN 3, PYDOE_CCDESIGN 2)
+ExecRefuses(f, n, d, p) == ~SettingsValid(f, n, p) \/ (f \in {"bb", "cc"} /\ ~Accepts(f, n, d, p))
 
 CountOf(f, n, d, p) ==
   LET L == Levels(f, n, d, p) IN
@@ -180,17 +186,17 @@ NewCall(i, api, f, n, p, sd, s, inj) ==
 
 Begin(i, api, f, n, p, sd, s, inj) ==
   /\ pc \in {"idle", "done"}
-  /\ (api = "execute" => SettingsValid(f, n))
+  /\ (api = "execute" => ~ExecRefuses(f, n, Dim, p))
   /\ cur' = NewCall(i, api, f, n, p, sd, s, inj)
   /\ flag' = TRUE
   /\ pc' = "begun"
   /\ ncalls' = ncalls + 1
   /\ UNCHANGED <<dflt, sp, memo>>
 
-\* execute(): invalid settings are refused before the design space is touched
+\* execute(): invalid settings / too small a dimension are refused before the design space is touched
 Refuse(i, api, f, n, p, sd, s) ==
   /\ pc \in {"idle", "done"}
-  /\ api = "execute" /\ ~SettingsValid(f, n)
+  /\ api = "execute" /\ ExecRefuses(f, n, Dim, p)
   /\ cur' = NewCall(i, api, f, n, p, sd, s, FALSE)
   /\ pc' = "done"
   /\ ncalls' = ncalls + 1
@@ -198,7 +204,7 @@ Refuse(i, api, f, n, p, sd, s) ==
 
 \* compute_doe(): the settings are validated after the flag has been switched on
 EarlyReject ==
-  /\ pc = "begun" /\ ~SettingsValid(cur.fam, cur.n)
+  /\ pc = "begun" /\ ~SettingsValid(cur.fam, cur.n, cur.p)
   /\ pc' = "failed"
   /\ UNCHANGED <<dflt, flag, sp, cur, memo, ncalls>>
 
@@ -209,7 +215,7 @@ SeederStep(calls) ==
 \* opq: the unit samples are not on the grid (real runs only): u = <<>>, uTok identifies them
 Sample(calls, cnt, u, uTok, opq) ==
   /\ pc = "begun"
-  /\ SettingsValid(cur.fam, cur.n) /\ Accepts(cur.fam, cur.n, Dim, cur.p) /\ ~cur.inj
+  /\ SettingsValid(cur.fam, cur.n, cur.p) /\ Accepts(cur.fam, cur.n, Dim, cur.p) /\ ~cur.inj
   /\ calls \in {0, 1}
   /\ CountOK(cur.fam, cur.n, Dim, cur.p, cnt)
   /\ IF opq THEN u = <<>> ELSE (Shape(u, cnt, Dim) /\ UnitCube(u))
@@ -222,7 +228,7 @@ Sample(calls, cnt, u, uTok, opq) ==
 
 SampleFail(calls) ==
   /\ pc = "begun"
-  /\ SettingsValid(cur.fam, cur.n)
+  /\ SettingsValid(cur.fam, cur.n, cur.p)
   /\ (~Accepts(cur.fam, cur.n, Dim, cur.p) \/ cur.inj)
   /\ calls \in {0, 1}
   /\ cur' = SeederStep(calls)
@@ -249,29 +255,33 @@ Raise ==
   /\ UNCHANGED <<dflt, sp, cur, memo, ncalls>>
 
 \* ---- the bounded model: every choice ranges over the constants
-UnitMatrices(cnt) == [1..cnt -> [1..Dim -> GridVals]]
+UnitMatrices(cnt) == IF UnitMode = "all" THEN [1..cnt -> [1..Dim -> GridVals]]
+                     ELSE {[r \in 1..cnt |-> [k \in 1..Dim |-> g]] : g \in GridVals}
 Rounded(u, up) == [r \in 1..Len(u) |-> [k \in 1..Dim |-> CellVal(sp[k], u[r][k], flag, up)]]
 MaxCount == 70
 
 \* the results of a call are observed in "done"; Return forgets them (Begin overwrites cur anyway)
 Return == pc = "done" /\ pc' = "idle" /\ cur' = NoCall /\ UNCHANGED <<dflt, flag, sp, memo, ncalls>>
 
-Choices(i, api, f, n, p, sd, s, inj) ==
-  /\ pc = "idle"
-  /\ ncalls < MaxCalls
+Choices(f, n, p, sd, s) ==
   /\ (f \in NFams \/ n = 0)
   /\ (f \in PFams \/ p = 0)
   /\ (sd \/ s = CHOOSE s0 \in Seeds : TRUE)
-DoBegin == \E i \in Insts, api \in Apis, f \in Fams, n \in Ns, p \in Ps, sd \in BOOLEAN, s \in Seeds, inj \in Injects :
-             Choices(i, api, f, n, p, sd, s, inj) /\ Begin(i, api, f, n, p, sd, s, inj)
-DoRefuse == \E i \in Insts, api \in Apis, f \in Fams, n \in Ns, p \in Ps, sd \in BOOLEAN, s \in Seeds :
-             Choices(i, api, f, n, p, sd, s, FALSE) /\ Refuse(i, api, f, n, p, sd, s)
-DoSample == \E calls \in {0, 1}, cnt \in 1..MaxCount :
-              /\ pc = "begun"
-              /\ CountOK(cur.fam, cur.n, Dim, cur.p, cnt)
-              /\ \E u \in UnitMatrices(cnt) : Sample(calls, cnt, u, u, FALSE)
-DoSampleFail == \E calls \in {0, 1} : SampleFail(calls)
-DoFinish == \E up \in BOOLEAN : pc = "sampled" /\ LET X == Rounded(cur.unit, up) IN Finish(X, X)
+\* (the state tests come before the quantifiers: TLC does not hoist them)
+DoBegin == /\ pc = "idle" /\ ncalls < MaxCalls
+           /\ \E f \in Fams, n \in Ns, p \in Ps, sd \in BOOLEAN, s \in Seeds :
+                /\ Choices(f, n, p, sd, s)
+                /\ \E i \in Insts, api \in Apis, inj \in Injects : Begin(i, api, f, n, p, sd, s, inj)
+DoRefuse == /\ pc = "idle" /\ ncalls < MaxCalls
+            /\ \E f \in Fams, n \in Ns, p \in Ps, sd \in BOOLEAN, s \in Seeds :
+                 /\ Choices(f, n, p, sd, s)
+                 /\ \E i \in Insts, api \in Apis : Refuse(i, api, f, n, p, sd, s)
+DoSample == /\ pc = "begun"
+            /\ \E cnt \in 1..MaxCount :
+                 /\ CountOK(cur.fam, cur.n, Dim, cur.p, cnt)
+                 /\ \E calls \in {0, 1}, u \in UnitMatrices(cnt) : Sample(calls, cnt, u, u, FALSE)
+DoSampleFail == pc = "begun" /\ \E calls \in {0, 1} : SampleFail(calls)
+DoFinish == pc = "sampled" /\ \E up \in BOOLEAN : LET X == Rounded(cur.unit, up) IN Finish(X, X)
 
 Next == DoBegin \/ DoRefuse \/ EarlyReject \/ DoSample \/ DoSampleFail \/ DoFinish \/ Raise \/ Return
 
@@ -292,7 +302,7 @@ CountRule == DoneOK => /\ Len(cur.x) = cur.cnt
                        /\ CountOK(cur.fam, cur.n, Dim, cur.p, cur.cnt)
                        /\ (cur.fam \in NFams /\ cur.fam # "sobolidx" => cur.cnt <= cur.n)
                        /\ cur.cnt >= 1
-RejectRule == Done /\ ~cur.ok => \/ ~SettingsValid(cur.fam, cur.n)
+RejectRule == Done /\ ~cur.ok => \/ ~SettingsValid(cur.fam, cur.n, cur.p)
                                  \/ ~Accepts(cur.fam, cur.n, Dim, cur.p)
                                  \/ cur.inj
 SeedRule == pc \in {"sampled", "failed", "done"} =>
@@ -308,7 +318,7 @@ DbOrder == DoneOK /\ cur.api = "execute" => cur.keys = Dedup(cur.x)
 (* Lemmas on the count rules over all families, n and d (checked by TLC in   *)
 (* the configuration that enumerates one call per instance (f, n, p)).      *)
 CountLemma ==
-  pc = "begun" /\ SettingsValid(cur.fam, cur.n) /\ Accepts(cur.fam, cur.n, Dim, cur.p) /\ cur.fam # "atmost" =>
+  pc = "begun" /\ SettingsValid(cur.fam, cur.n, cur.p) /\ Accepts(cur.fam, cur.n, Dim, cur.p) /\ cur.fam # "atmost" =>
     LET f == cur.fam
         n == cur.n
         d == Dim
